@@ -94,6 +94,12 @@ func (s *socket) send() {
 		c.lastPipe = p
 		if c.resendTime > 0 {
 			id := c.reqID
+			if c.resendTimer != nil {
+				// e.g. resent early because its pipe closed: the
+				// earlier timer would otherwise stay armed, fire
+				// too soon, and outlive Close.
+				c.resendTimer.Stop()
+			}
 			c.resendTimer = time.AfterFunc(c.resendTime, func() {
 				c.resendMessage(id)
 			})
